@@ -12,8 +12,9 @@ A path is a JSON array of keys: a string (dictionary key) or an integer (list in
                                           (both results of `get_params_tree` for the loaded JSON `tree`: the nested list
                                           `make_dict` returns and the copy of the tree; `null`, `null` for a scalar)
 * `params_get`   `{tree, path}`         → `{"value": tree}` | `{"err": "KeyError"|"IndexError"|"TypeError"}`
-* `params_set`   `{tree, path, value}`  → `{"tree": tree}`  | `{"err": …}`   (the tree `sett` leaves behind, i.e. what
-                                          `json.dumps` then writes)
+* `params_set`   `{tree, path, value}`  → `{"tree": tree, "on_load_failure": "ValueError"|"TypeError"}` | `{"err": …}`
+                                          (the tree `sett` leaves behind, i.e. what `json.dumps` then writes, and the
+                                          exception class of the `except` branch should the loader reject it)
 * `params_leaves` `{tree}`              → `{"paths": [[key, …], …], "nodup": bool}`   (the flat reading `leafPaths` and the
                                           well-formedness `nodupKeys` the theorems use)
 -/
@@ -90,7 +91,7 @@ def handleParams (op : String) (j : Json) : Option (Except String Json) :=
     let p ← field j "path" (getList getKey)
     let v ← field j "value" getTree
     match setPath t p v with
-    | .ok t' => pure (Json.mkObj [("tree", jTree t')])
+    | .ok t' => pure (Json.mkObj [("tree", jTree t'), ("on_load_failure", Json.str (loadFailure t').toString)])
     | .error e => pure (jPathErr e)
   | "params_leaves" => do
     let t ← field j "tree" getTree
